@@ -121,6 +121,9 @@ func (m *SetMon[T]) ContainsList(vs []T) {
 // (each member exactly once; order is the business of C02/C09).
 func (m *SetMon[T]) Check() {
 	c := m.c
+	if !c.Observe() {
+		return
+	}
 	if sz := m.S.Size(); sz != m.n() {
 		c.Fail("size", "", "%s.Size() = %d, model has %d distinct members %s", m.Name, sz, m.n(), short(m.Model))
 	}
@@ -236,11 +239,14 @@ func runSetHistory[T comparable](c *core.Ctx, d *Dom[T], kind int) {
 		m.Remove(v)
 		m.Add(v, v)
 	}
+	c.ObserveNow()
+	m.Check()
 	c.Nontrivial()
 }
 
 func runC04(c *core.Ctx) {
 	i := c.Index
+	c.SetGaps(i%2 == 1)
 	switch {
 	case i%5 == 4:
 		runSetHistory(c, StrDom(c.R.Range(3, 14)), i)
